@@ -463,6 +463,36 @@ Definition touched (E : env) (st : store) (a : api) (o : opts) (r : role) (k : k
          end
   end.
 
+(* ---------------------------------------------------------------- the write side the checksum travels through
+   "SHA-256 of each data file recorded at write, verified on read": between the write and the read lie the
+   commits that carry the entry along.  FileManager.create_manifest_file writes [ADDED entries] ++ [EXISTING
+   entries]; Transaction's snapshot builder (transaction.py, "2. Process deletes" / "3. Process appends") keeps
+   a manifest no delete touches, rewrites one that loses some files (survivors as EXISTING entries), drops one
+   that loses all, and writes the appended files into one new manifest.  The checksum field of a written entry
+   is GenRead.gen_entry_checksum, regenerated from create_manifest_file on every run. *)
+Definition written_entry (added : bool) (d : dfile) : dfile :=
+  {| dpath := dpath d; dcount := dcount d; dsum := gen_entry_checksum added (dsum d) |}.
+
+Definition create_manifest (added existing : list dfile) : list dfile :=
+  map (written_entry true) added ++ map (written_entry false) existing.
+
+Definition survivors (deleted : list key) (dfs : list dfile) : list dfile :=
+  filter (fun d => negb (existsb (N.eqb (dpath d)) deleted)) dfs.
+
+Definition rewrite_step (deleted : list key) (dfs : list dfile) : list (list dfile) :=
+  let s := survivors deleted dfs in
+  if Nat.eqb (List.length s) (List.length dfs) then [dfs]
+  else match s with [] => [] | _ => [create_manifest [] s] end.
+
+Record commit := { c_deleted : list key; c_appended : list dfile }.
+
+(* the manifests (as entry lists, in manifest-list order) of the snapshot a commit creates over base ms *)
+Definition apply_commit (ms : list (list dfile)) (c : commit) : list (list dfile) :=
+  (match c_deleted c with [] => ms | del => flat_map (rewrite_step del) ms end)
+  ++ (match c_appended c with [] => [] | app => [create_manifest app []] end).
+
+Definition run_history (h : list commit) : list (list dfile) := fold_left apply_commit h [].
+
 (* ---------------------------------------------------------------- table-driven environments (harness) *)
 Definition lookup {A} (d : A) (l : list (N * A)) (k : N) : A :=
   match find (fun p => N.eqb (fst p) k) l with Some p => snd p | None => d end.
